@@ -93,6 +93,9 @@ def displaced_reads(repo, chk):
             if isinstance(idx, ast.BinOp) and isinstance(idx.op, ast.Mod):
                 if is_len_of(idx.right, base):
                     chk.ok('C04.8', 'R8', fn.site(n), f'{base}[{ast.unparse(idx)[:60]}]', 'the computed position is reduced modulo the length of the vector that is read')
+                elif isinstance(idx.right, ast.Name) and idx.right.id in fn.params and idx.right.id not in arrays:
+                    chk.bad('C04.8', 'R8', fn.site(n), f'{base}[{ast.unparse(idx)[:60]}]', f'the computed position is reduced modulo the parameter `{idx.right.id}` (a count handed in by the caller - the number of rows of the FULL data), '
+                            f'not modulo len({base}): under sampling {base} is shorter, so the read leaves the vector (IndexError / foreign memory)')
                 else:
                     chk.unsure('C04.8', 'R8', fn.site(n), f'{base}[{ast.unparse(idx)[:60]}]', f'the computed position is reduced modulo {ast.unparse(idx.right)[:40]}; that this is the length of {base} is not decided')
             elif d in ('numpy.mod', 'numpy.remainder') and len(idx.args) == 2:
